@@ -358,6 +358,15 @@ func (x *c03) dischargeBounds(f *ssa.Function, ins []ssa.Instruction, s residueS
 			}
 		}
 	}
+	// inlined standard-library string helpers (HasPrefix, HasSuffix, TrimSuffix, …): their slice expressions
+	// are guarded by their own length test on the very same operands
+	for _, in := range ins {
+		if call, ok := in.(*ssa.Call); ok {
+			if o := flow.CalleeObj(call); o != nil && o.Pkg() != nil && (o.Pkg().Path() == "strings" || o.Pkg().Path() == "bytes") && o.Type().(*types.Signature).Recv() == nil {
+				return "G4: inlined " + o.Pkg().Path() + "." + o.Name() + " — the standard library function checks the lengths of its own operands before slicing them", "", o.Pkg().Path() + "." + o.Name()
+			}
+		}
+	}
 	// inlined encoding/binary readers: need len(s) >= N
 	for _, in := range ins {
 		call, ok := in.(*ssa.Call)
